@@ -74,6 +74,10 @@ def check(ctx, parts=('cursor', 'store', 'index', 'guards', 'atomic', 'tobytes',
     ctx.unit('functions', 4)
 
     w = repo.walker(inline_depth=0, max_paths=ctx.max_paths)
+    # the buffer's guarantees hold under every interpreter configuration: assert statements are
+    # read as python -O reads them (absent), so a collision test written as an assert is no test
+    w.strip_asserts = True
+    has_asserts = any(isinstance(n, ast.Assert) for n in ast.walk(ins.node))
     paths = w.paths(ins.node, cls=fr)
     ctx.unit('paths', len(paths))
     ok_paths = [p for p in paths if not p.raises()]
@@ -237,6 +241,8 @@ def check(ctx, parts=('cursor', 'store', 'index', 'guards', 'atomic', 'tobytes',
                         kind = 'raises a collision although the new chunk overlaps no neighbour'
                 else:
                     kind = 'stores the chunk although it overlaps %s' % ('the chunk that begins at or before position' if hits_pred(sit) else 'the chunk that begins after position')
+                    if has_asserts:
+                        kind += ' (the assert statements of insert do not exist under python -O / PYTHONOPTIMIZE)'
                 if key is None:
                     # one report per kind of mistake, with the first situation as the witness
                     if kind in reported:
